@@ -206,6 +206,10 @@ package hackpadfs
 //@                      data == old(ret("io/fs.ReadFile", 0, fs, name)) && err == old(ret("io/fs.ReadFile", 1, fs, name)) && world() == old(worldAfter("io/fs.ReadFile", fs, name)))
 //@   nopanic
 
+// C05 in the open-then-operate fallbacks: a *PathError of the file-level helper (which names the file as the handle knows
+// it - often only its base name) is reported under the name the caller used; everything else is unchanged.
+//@ spec underName(r error, e error, name string) := ite(isPathError(e), isPathError(r) && opOf(r) == opOf(e) && innerErr(r) == innerErr(e) && pathOf(r) == name, r == e)
+
 //@ func Chmod(fs FS, name string, mode FileMode) (err error)
 //@   props C06 C07 C08 C04 C05
 //@   deterministic
@@ -216,7 +220,7 @@ package hackpadfs
 //@   ensures "fallback-open-error" implies(!implements(fs, ChmodFS) && !implements(fs, MountFS) && old(openE(fs, name)) != nil,
 //@                      isPathError(err) && pathOf(err) == name && innerErr(err) == old(openE(fs, name)) && world() == old(openW(fs, name)))
 //@   ensures "fallback" implies(!implements(fs, ChmodFS) && !implements(fs, MountFS) && old(openE(fs, name)) == nil,
-//@                      err == old(retW("hackpadfs.ChmodFile", 0, openW(fs, name), openF(fs, name), mode)) &&
+//@                      underName(err, old(retW("hackpadfs.ChmodFile", 0, openW(fs, name), openF(fs, name), mode)), name) &&
 //@                      world() == old(worldAfterW("hackpadfs.(File).Close", worldAfterW("hackpadfs.ChmodFile", openW(fs, name), openF(fs, name), mode), openF(fs, name))))
 //@   nopanic
 
@@ -230,7 +234,7 @@ package hackpadfs
 //@   ensures "fallback-open-error" implies(!implements(fs, ChownFS) && !implements(fs, MountFS) && old(openE(fs, name)) != nil,
 //@                      isPathError(err) && pathOf(err) == name && innerErr(err) == old(openE(fs, name)) && world() == old(openW(fs, name)))
 //@   ensures "fallback" implies(!implements(fs, ChownFS) && !implements(fs, MountFS) && old(openE(fs, name)) == nil,
-//@                      err == old(retW("hackpadfs.ChownFile", 0, openW(fs, name), openF(fs, name), uid, gid)) &&
+//@                      underName(err, old(retW("hackpadfs.ChownFile", 0, openW(fs, name), openF(fs, name), uid, gid)), name) &&
 //@                      world() == old(worldAfterW("hackpadfs.(File).Close", worldAfterW("hackpadfs.ChownFile", openW(fs, name), openF(fs, name), uid, gid), openF(fs, name))))
 //@   nopanic
 
@@ -244,7 +248,7 @@ package hackpadfs
 //@   ensures "fallback-open-error" implies(!implements(fs, ChtimesFS) && !implements(fs, MountFS) && old(openE(fs, name)) != nil,
 //@                      isPathError(err) && pathOf(err) == name && innerErr(err) == old(openE(fs, name)) && world() == old(openW(fs, name)))
 //@   ensures "fallback" implies(!implements(fs, ChtimesFS) && !implements(fs, MountFS) && old(openE(fs, name)) == nil,
-//@                      err == old(retW("hackpadfs.ChtimesFile", 0, openW(fs, name), openF(fs, name), atime, mtime)) &&
+//@                      underName(err, old(retW("hackpadfs.ChtimesFile", 0, openW(fs, name), openF(fs, name), atime, mtime)), name) &&
 //@                      world() == old(worldAfterW("hackpadfs.(File).Close", worldAfterW("hackpadfs.ChtimesFile", openW(fs, name), openF(fs, name), atime, mtime), openF(fs, name))))
 //@   nopanic
 
@@ -380,4 +384,10 @@ package hackpadfs
 //@   ensures "mount" implies(!implements(fs, RemoveAllFS) && implements(fs, MountFS), translated(err, old(ret("hackpadfs.RemoveAll", 0, mountOf(fs, path), subOf(fs, path))), path, old(subOf(fs, path))) &&
 //@                      world() == old(worldAfter("hackpadfs.RemoveAll", mountOf(fs, path), subOf(fs, path))))
 //@   ensures "gate" implies(!implements(fs, RemoveAllFS) && !implements(fs, MountFS) && !VP(path), isPathError(err) && pathOf(err) == path && errIs(err, ErrInvalid) && world() == old(world()))
+//@   nopanic
+
+//@ func errUnderName(err error, name string) (r error)
+//@   props C05 C08
+//@   ensures "under-name" [C05] underName(r, err, name)
+//@   pure
 //@   nopanic
